@@ -156,7 +156,7 @@ func (obj *Mixture) Posterior(r Scalar, data MixtureDataRecord, states []int) er
 /* -------------------------------------------------------------------------- */
 
 func (obj *Mixture) GetParameters() Vector {
-  return obj.LogWeights
+  return obj.LogWeights.CloneVector()
 }
 
 func (obj *Mixture) SetParameters(parameters Vector) error {
